@@ -19,6 +19,13 @@ RULE = (
     "subscriber observing is_computed() and the final outcome. distinct = (kind, sequence); non-trivial = the "
     "sequence contains a completion and at least one later observation."
 )
+RULE += (
+    " A second, subscriber-centred alphabet adds callbacks that unsubscribe THEMSELVES while being notified "
+    "(well-behaved / raising), enumerated to the same lengths. 12 more scheduler scenarios put a TASK under "
+    "observation whose awaited batch is completed behind the scheduler's back in the same traversal (nested "
+    "sync call / item.value() / batch.flush() x 4 yield orders): computed after value(), the same outcome from "
+    "value(), value() and call, one notification."
+)
 ASSUMPTIONS = [
     "the first error()/value() that triggers a failing lazy Future may raise or return the error; only behaviour from then on is fixed by the statement",
     "after reset_unsafe() on tasks, batches and items only explicit set_value/set_error are modelled (re-running a consumed generator or a flushed batch is outside the statement)",
